@@ -175,6 +175,7 @@ type writeRec struct {
 }
 
 type world struct {
+	scratch []*message.DataPoint
 	p      params
 	b      *sim.Broker
 	writes []writeRec
@@ -291,7 +292,15 @@ func (w *world) doOp(ctx context.Context, up *iscp.Upstream, op string) {
 	base := time.Duration(w.opCounter * 10)
 	mk := func(id message.DataID, pl ...string) {
 		rec := writeRec{op: op}
+		// a single writer reuses one argument slice with spare capacity for every call (the library must not
+		// retain the variadic slice: it belongs to the caller again once WriteDataPoints has returned)
 		var dps []*message.DataPoint
+		if w.p.Writers <= 1 {
+			if w.scratch == nil {
+				w.scratch = make([]*message.DataPoint, 0, 8)
+			}
+			dps = w.scratch[:0]
+		}
 		for i, s := range pl {
 			e := base + time.Duration(i)
 			rec.points = append(rec.points, wpoint{id, e * time.Microsecond, s})
@@ -301,6 +310,10 @@ func (w *world) doOp(ctx context.Context, up *iscp.Upstream, op string) {
 		idx := len(w.writes)
 		w.writes = append(w.writes, rec)
 		err := up.WriteDataPoints(ctx, &idc, dps...)
+		for i := range dps {
+			dps[i] = nil // the caller's slice is the caller's again
+		}
+		idc = message.DataID{Name: "reused-by-caller", Type: "x"} // and so is the DataID variable it pointed to
 		w.writes[idx].err = err
 		w.writes[idx].done = true
 		w.writes[idx].chunksBefore = w.chunksAtBroker()
